@@ -1,10 +1,55 @@
 (* Properties/C10.v — Pack index lookups agree across implementations and with a map.
-   Only statements here; proofs live in Proofs/C10*.v.  [hs] is the object-id size,
-   [Hsz] the digest (the theorems hold for every digest function). *)
+   Only statements here; proofs live in Proofs/C10*.v.  Model: Model/Idx.v (after the
+   three `fix:` commits of findings/C10.json).  [hs] is the object-id size, [H]/[Hsz]
+   the digest: the theorems hold for every digest function.
+   S: Spec/IdxFormat.v — git's idx v2 layout [idx_file] of the table sorted by id, and the
+   plain map [lookup].  [table es] = what idxfile.Writer keeps of the objects [es] it is
+   given (first occurrence of every non-zero id), sorted by id. *)
 From Coq Require Import List NArith ZArith Bool String.
-From GoGit Require Import Base.Out Model.PackBytes Model.Idx Proofs.C10Basic.
+From GoGit Require Import Base.Out Base.GoInt Model.PackBytes Model.Idx Spec.IdxFormat
+  Proofs.C10Basic Proofs.C10Order Proofs.C10Layout Proofs.C10Lazy Proofs.C10Main.
 Import ListNotations.
 Local Open Scope N_scope.
+
+(* ---- the written index is git's layout (C08_idx_is_git restated: C10_roundtrip, encode half) ---- *)
+Theorem C10_written_idx_is_git_layout : forall hs Hsz es pack,
+  wf_entries hs es = true ->
+  exists m, create_index hs (writer_add es [] []) pack = Ok m /\
+            encode hs Hsz m = Ok (idx_file (Hsz hs) (table es) pack).
+Proof. exact written_idx_is_git_layout. Qed.
+Print Assumptions C10_written_idx_is_git_layout.
+
+(* the table is a map over the writer's input: an id is found iff it was given, with the
+   offset and CRC of its first occurrence *)
+Theorem C10_table_is_map : forall es h e,
+  lookup (table es) h = Some e -> In e es /\ e_hash e = h.
+Proof. exact table_lookup_in. Qed.
+Print Assumptions C10_table_is_map.
+
+(* ---- C10_lookup_is_map, LazyIndex: opened on the written idx (and a .rev with the v1 header),
+   Contains / FindOffset / FindCRC32 / Entries / Count answer exactly like the map; offsets up to
+   2^64-1 go through the 64-bit table; the binary search never runs out of the model's fuel ---- *)
+Theorem C10_lazy_lookup_is_map : forall hs H es pack rev,
+  wf_entries hs es = true -> List.length pack = hs ->
+  (exists hf t, rev = ([82; 73; 68; 88] ++ be32 1 ++ hf) ++ t /\ List.length hf = 4%nat) ->
+  let tbl := table es in
+  let L := the_lazy hs H tbl pack rev in
+  lazy_init hs (idx_file H tbl pack) rev pack = Ok L /\
+  (forall h, wf_hash hs h ->
+     lazy_contains hs L h = Ok (match lookup tbl h with Some _ => true | None => false end) /\
+     lazy_find_offset hs L h = match lookup tbl h with Some e => Ok (to_i64 (e_off e)) | None => Err ENotFound end /\
+     lazy_find_crc hs L h = match lookup tbl h with Some e => Ok (e_crc e) | None => Err ENotFound end) /\
+  lazy_entries hs L = (tbl, None) /\
+  l_count L = N.of_nat (List.length tbl).
+Proof.
+  intros hs H es pack rev W Hp Hr tbl L.
+  pose proof (wf_entries_tbl hs es W) as WF.
+  split; [exact (lazy_init_ok hs H tbl pack rev WF Hp Hr)|].
+  split; [|split; [exact (lazy_entries_map hs H tbl pack rev WF Hp Hr)|reflexivity]].
+  intros h Hh. split; [exact (lazy_contains_map hs H tbl pack rev WF Hp Hr h Hh)|].
+  split; [exact (lazy_find_offset_map hs H tbl pack rev WF Hp Hr h Hh)|exact (lazy_find_crc_map hs H tbl pack rev WF Hp Hr h Hh)].
+Qed.
+Print Assumptions C10_lazy_lookup_is_map.
 
 (* ---- C10_reject: malformed files are rejected by Decoder.Decode ---- *)
 Theorem C10_reject_magic : forall hs Hsz file,
@@ -66,3 +111,20 @@ Theorem C10_mmap_count_fits : forall hs idx rev s,
   s_off64 s <= s_trailer s /\ s_trailer s + 2 * N.of_nat hs = blen idx /\ S_IDXMIN <= blen idx.
 Proof. exact scan_load_fits. Qed.
 Print Assumptions C10_mmap_count_fits.
+
+(* ---- non-vacuity: a set with a 31-bit, a 2^31 and a 2^32 offset is in the domain, and the
+   model evaluates the whole build on it ---- *)
+Example C10_wf_example :
+  wf_entries 20 [E "aa00000000000000000000000000000000000001" 12 7;
+                 E "0100000000000000000000000000000000000000" 2147483648 9;
+                 E "aa00000000000000000000000000000000000002" 4294967296 8] = true.
+Proof. vm_compute. reflexivity. Qed.
+
+Example C10_table_example :
+  map e_off (table [E "aa00000000000000000000000000000000000001" 12 7;
+                    E "0100000000000000000000000000000000000000" 2147483648 9;
+                    E "aa00000000000000000000000000000000000001" 99 1;
+                    E "0000000000000000000000000000000000000000" 5 5;
+                    E "aa00000000000000000000000000000000000002" 4294967296 8])
+  = [2147483648; 12; 4294967296].
+Proof. vm_compute. reflexivity. Qed.
